@@ -70,6 +70,23 @@ impl VBackend {
 		Callback { out, guard }
 	}
 
+	/// The first half of a device callback (`on_start_processing`): together with `end_callback`
+	/// it lets a check place gameplay-thread calls between the two halves, where a real second
+	/// thread's calls can land.
+	pub fn begin_callback(&mut self) -> Guarded {
+		let renderer = self.renderer.as_mut().expect("renderer");
+		let (_, guard) = monitor::as_callback(|| renderer.on_start_processing());
+		guard
+	}
+
+	/// The second half of a device callback (`process`).
+	pub fn end_callback(&mut self, frames: usize, channels: u16) -> Callback {
+		let mut out = vec![SENTINEL; frames * channels as usize];
+		let renderer = self.renderer.as_mut().expect("renderer");
+		let (_, guard) = monitor::as_callback(|| renderer.process(&mut out, channels));
+		Callback { out, guard }
+	}
+
 	/// The device changed its sample rate (cpal calls this between callbacks, from its stream
 	/// manager, so it is not subject to the real-time monitors).
 	pub fn change_sample_rate(&mut self, sample_rate: u32) {
